@@ -6,6 +6,7 @@ import (
 	"fmt"
 	"math"
 	"math/big"
+	"os"
 	"regexp"
 	"sort"
 	"strings"
@@ -78,7 +79,7 @@ func (rn *runner) programs() {
 	ex := strings.ReplaceAll(extract, "REPR", repr)
 	f := rn.sp.fq
 	// trailing cases also decode the intact part alone to compare the trees
-	t0fast := `(if .k == 1 and $c.t then .t0 = (try (.b | tobytes | .[0:$c.n] | _decode("` + f + `"; $O + ($c.o // {})) | tovalue) catch {t0err: tostring}) end)`
+	t0fast := `(if .k == 1 and $c.t then .t0 = (try (.b | tobytes | .[0:$c.n] | _decode("` + f + `"; $O + ($c.o // {})) | if ._error then error(._error.error) end | tovalue) catch {t0err: tostring}) end)`
 	t0pub := `(if .k == 1 and $c.t then .t0 = (try (.b | tobytes | .[0:$c.n] | from_` + f + `($c.o // {}) | tovalue) catch {t0err: tostring}) end)`
 	rn.progFast = `({progress: null} + options) as $O | .[] | . as $c | ` + t0fast + ` | . as $c
   | (try {v: ($c.b | tobytes | _decode("` + f + `"; $O + ($c.o // {})) | if ._error then error(._error.error) end)} catch {derr: tostring})` + ex
@@ -213,14 +214,20 @@ func (rn *runner) violate(vc *valCase, e enc, kind, cls, what string, c Case, in
 	}
 	// inputs exercising a recorded defect get that defect's signature (per kind of
 	// observation); every other input keeps the generic one
-	if tag := rn.defectTag(vc.v, e); tag != "" {
+	if tag := rn.defectTag(vc.v, e, kind, cls); tag != "" {
 		sig = rn.sp.name + ":" + tag + ":" + kind
-		if i := strings.Index(cls, "got-"); i >= 0 {
+		if i := strings.Index(cls, "got-"); i >= 0 && tag == "indefinite-container-over-31-items" {
 			sig += ":" + cls[i:]
 		}
 	}
+	if os.Getenv("VERIF_C16_FINE") != "" {
+		// development aid: one signature per encoding label
+		sig += ":" + digitsRE.ReplaceAllString(e.L, "N")
+	}
 	rn.r.Violate(sig, what, c)
 }
+
+var digitsRE = regexp.MustCompile(`[0-9]+\|[0-9]+`)
 
 func (rn *runner) describe(vc *valCase, e enc) string {
 	return fmt.Sprintf("%s value %s encoded as %s = %s", rn.sp.name, vc.v, trimLong(e.L, 120), shortHex(e.B))
@@ -297,7 +304,8 @@ func (rn *runner) one(vc *valCase, idx int, e enc, only *Case) {
 				rn.r.Count("truncations", 1)
 				rn.checkPrefix(vc, e, c, pre, err != nil, fmt.Sprint(err), pan)
 			}
-			if (small || !sp.binary) && want("prefix", "public") {
+			// the same through from_F for the one node values and the first encoding of the two node values
+			if ((small && (idx == 0 || vc.v.Nodes() == 1)) || only != nil) && want("prefix", "public") {
 				c := c
 				c.Driver = "public"
 				rn.r.Nontrivial(key + fmt.Sprintf("|prefix%d", p))
@@ -326,12 +334,17 @@ func (rn *runner) trailing(vc *valCase, idx int, e enc, only *Case) {
 		case "trailing-00":
 			in = concat(e.B, []byte{0})
 		case "trailing-value":
-			if sp.fq == "jsonl" {
+			// jsonl: one more line; toml: a document is one table, repeating it is a
+			// (possibly invalid) longer document, not trailing data
+			if sp.fq == "jsonl" || sp.fq == "toml" {
 				continue
 			}
 			second := e.B
 			if sp.fq == "yaml" {
 				second = concat([]byte("\n---\n"), e.B)
+			} else if !sp.binary {
+				// a separate second document, not a longer token
+				second = concat([]byte("\n"), e.B)
 			}
 			in = concat(e.B, second)
 		}
@@ -486,6 +499,8 @@ func (rn *runner) checkIntact(vc *valCase, e enc, c Case, res map[string]any, pa
 		rn.violate(vc, e, "panic", "intact", d+": "+how+": "+pan, c, e.B)
 	case res == nil:
 		rn.violate(vc, e, "driver", "", d+": driver returned no result", c, e.B)
+	case res["derr"] != nil && sp.name == "csv" && csvRagged(vc.v):
+		// rows of different lengths: Go's own csv reader rejects them too, an error is an honest answer
 	case res["derr"] != nil:
 		cls := classifyError(sp, vc.v, e)
 		rn.violate(vc, e, "decode-error", cls, fmt.Sprintf("%s: %s fails with %s (expected %s)", d, how, trimLong(fmt.Sprint(res["derr"]), 160), exp), c, e.B)
@@ -676,7 +691,7 @@ func showRes(res map[string]any, pan string) string {
 
 var breakAsItemRE = regexp.MustCompile(`major_type@\d+\+3=7/special_float;short_count@\d+\+5=31/indefinite;`)
 
-func (rn *runner) defectTag(v *V, e enc) string {
+func (rn *runner) defectTag(v *V, e enc, kind, cls string) string {
 	switch rn.sp.name {
 	case "cbor":
 		// indefinite length array/map with more than 31 items (grid values)
@@ -691,6 +706,26 @@ func (rn *runner) defectTag(v *V, e enc) string {
 				return "indefinite-string-break-not-consumed"
 			}
 		}
+	case "asn1_ber":
+		switch {
+		case berHasZeroLength(e.B):
+			// a definite length of 0 (other than NULL) is taken for the indefinite form
+			return "zero-length-taken-as-indefinite"
+		case strings.Contains(e.L, "constructed[]") && (kind == "repr" || kind == "trailing-repr") && strings.HasSuffix(cls, ":type"):
+			return "constructed-string-without-segments"
+		case cls == "flt:value" && hasFloat(v, math.Float64bits(math.Copysign(0, -1))):
+			return "real-minus-zero"
+		case cls == "flt:value" && hasFloat(v, 1) && (strings.Contains(e.L, "base16") || strings.Contains(e.L, "base2even")):
+			return "real-smallest-subnormal-underflow"
+		}
+	case "csv":
+		if e.L == "tab" && csvHasEmptyField(v) {
+			// TrimLeadingSpace also eats a tab delimiter in front of an empty field
+			return "tab-delimiter-empty-field-trimmed"
+		}
+		if csvRagged(v) && cls == "arr:type" {
+			return "ragged-rows-error-swallowed"
+		}
 	case "bencode":
 		big := false
 		v.walk(func(n *V) {
@@ -703,6 +738,101 @@ func (rn *runner) defectTag(v *V, e enc) string {
 		}
 	}
 	return ""
+}
+
+func csvHasEmptyField(v *V) bool {
+	for _, r := range v.Elems() {
+		for _, f := range r.Elems() {
+			if len(f.Bytes()) == 0 {
+				return true
+			}
+		}
+	}
+	return false
+}
+
+func csvRagged(v *V) bool {
+	for _, r := range v.Elems() {
+		if len(r.Elems()) != len(v.Elems()[0].Elems()) {
+			return true
+		}
+	}
+	return false
+}
+
+func hasFloat(v *V, bits uint64) bool {
+	found := false
+	v.walk(func(n *V) {
+		if n.T == "flt" && math.Float64bits(n.Float()) == bits {
+			found = true
+		}
+	})
+	return found
+}
+
+// berHasZeroLength walks the harness' own BER output: is there an element, other
+// than NULL, with the definite length 0?
+func berHasZeroLength(b []byte) bool {
+	found := false
+	var walk func(b []byte) int
+	walk = func(b []byte) int {
+		if len(b) < 2 {
+			return len(b)
+		}
+		tag := b[0]
+		lb := b[1]
+		pos := 2
+		switch {
+		case lb == 0x80:
+			for pos+1 < len(b) && !(b[pos] == 0 && b[pos+1] == 0) {
+				pos += walk(b[pos:])
+			}
+			return pos + 2
+		case lb&0x80 != 0:
+			n := int(lb & 0x7f)
+			l := 0
+			for i := 0; i < n && pos < len(b); i++ {
+				l = l<<8 | int(b[pos])
+				pos++
+			}
+			end := pos + l
+			if end > len(b) {
+				end = len(b)
+			}
+			if l == 0 && tag != 0x05 {
+				found = true
+			}
+			if tag&0x20 != 0 {
+				for p := pos; p < end; {
+					p += walk(b[p:end])
+				}
+			}
+			return end
+		default:
+			l := int(lb)
+			end := pos + l
+			if end > len(b) {
+				end = len(b)
+			}
+			if l == 0 && tag != 0x05 {
+				found = true
+			}
+			if tag&0x20 != 0 {
+				for p := pos; p < end; {
+					p += walk(b[p:end])
+				}
+			}
+			return end
+		}
+	}
+	for p := 0; p < len(b); {
+		n := walk(b[p:])
+		if n <= 0 {
+			break
+		}
+		p += n
+	}
+	return found
 }
 
 func classifyMismatch(sp *spec, v *V, e enc, mm *mismatch) string {
